@@ -24,11 +24,12 @@ ENGINES["diffsim"] = {
 }
 
 ENGINES["tasksim"] = {
-    "serves": ["C16"],
+    "serves": ["C16", "C19"],
     "kind": "real goroutines parked at harness-owned blocking points and simhook yields, released one at a time by the seeded scheduler inside a synctest bubble",
-    "real_vs_stub": {"real": ["app/ocache (oCache, entry) with verif yield points"],
+    "real_vs_stub": {"real": ["app/ocache (oCache, entry) with verif yield points", "net/streampool (streamPool, stream, ExecPool) with verif yield points", "github.com/cheggaaa/mb queues"],
                      "stub": ["LoadFunc and Object (harness-owned: every load/Close/TryClose is a scheduler-released blocking point; outcomes chosen by the seed)",
-                              "GC ticker disabled; GC runs as an explicit operation with fake-clock jumps past the TTL"]},
+                              "GC ticker disabled; GC runs as an explicit operation with fake-clock jumps past the TTL",
+                              "C19: drpc.Stream (healthy / write fails at the k-th send / write blocks forever / remote closes), peer.Peer, StreamHandler (OpenStream latency and failure, incoming messages that change tags), callers"]},
 }
 
 ENGINES["treesim"] = {
@@ -233,6 +234,22 @@ PROPS = {
         "technique": "deterministic simulation: seeded operation histories with restart-as-operation, differential oracle against a freshly rebuilt index after every step",
         "level_text": "Seeded exploration of operation histories with a differential oracle (live index vs freshly filled index vs second history) evaluated after every operation.",
         "level_note": "ldiff is real; reference = the same code filled in one call (the property's own definition of history independence)",
+    },
+    "C19": {
+        "engine": "tasksim",
+        "level": "exploration",
+        "budget": {"quick": 40, "thorough": 600},
+        "race_leg": True,
+        "rule": "one run = a standalone stream pool (dial workers 1-3, dial queue 1-4) with 2-4 caller tasks x 2-7 calls out of Send (async, through the dial pool and OpenStream), SendById, Broadcast by tags, AddStream, RemoveTagsById, over 2-4 peers and 1-3 tags; streams have queue sizes 1-5 and are healthy, fail at the k-th write, or block forever in MsgSend; "
+                "remotes send 0-2 messages that add/remove tags through the stream context and may close; OpenStream and the peer getter may fail. The seeded scheduler orders every pass through MsgSend, MsgRecv, OpenStream, the peer getter, and the 7 yield points inside the pool (before each lock acquisition and in streamClose). "
+                "Oracles after every grant: no caller is blocked inside a pool call (each call finishes within its own grants even with a blocked stream present); per stream the copies reaching MsgSend carry strictly increasing acceptance numbers (written in the order accepted, never twice), are addressed to that stream's peer and are copies; "
+                "queue length <= configured size; indexes consistent (no dead or duplicate stream ids under peers/tags, tags <-> tag index agree); no log.Fatal. After faults stop every healthy stream drains completely although blocked streams stay stuck; after all remotes close the pool's streams/byPeer/byTag are empty.",
+        "assumptions": COMMON_ASSUMPTIONS + ["interleavings at the granularity of harness blocking points and the verif yield points; data races between yields are left to the -race leg",
+                                             "acceptance order is observed through the per-stream copies the pool makes (Copy is stamped with a global counter)"],
+        "technique": "deterministic simulation: seeded task scheduler over the real stream pool goroutines (synctest bubble, yield hooks), fake streams with write failures / permanently blocked writes / remote closes; non-blocking, FIFO, bounded-queue, index-consistency and drain oracles",
+        "level_text": "Seeded exploration of interleavings of callers, write loops, read loops, dial workers and stream opening in the real pool, with stuck, failing and closing peers; oracles after every scheduler grant and after faults stop.",
+        "level_note": "streampool and mb queues real; streams, peers, handler are harness stubs; scheduler granularity = yield points",
+        "expected_probes": [],
     },
     "C20": {
         "engine": "appsim",
